@@ -40,7 +40,7 @@ class Contract(object):
 
     def __init__(self, qual, params=None, ret=None, requires=(), ensures=(), raises=None,
                  modifies=(), loops=None, trusted=False, kind='function', note='',
-                 pure=False, defaults=None, exc_modifies=None, tags=(), must_fail=()):
+                 pure=False, defaults=None, exc_modifies=None, tags=(), must_fail=(), axioms=()):
         self.qual = qual
         self.params = dict(params or {})
         self.ret = ret
@@ -56,6 +56,7 @@ class Contract(object):
         self.defaults = dict(defaults or {})
         self.exc_modifies = exc_modifies     # None: same as modifies
         self.tags = tuple(tags)
+        self.axioms = list(axioms)         # names of axiom groups (spec.axioms) this contract relies on
         self.must_fail = list(must_fail)   # deliberately false postconditions (vacuity guard)
 
 
@@ -85,6 +86,7 @@ class Spec(object):
         self.exc_parent = {}
         self.assumptions = {}      # id -> text
         self.lemmas = {}           # name -> Lemma
+        self.axioms = {}           # group name -> list of spec expressions (ground facts)
 
     def Class(self, name, **kw):
         c = ClassDecl(name, **kw)
